@@ -219,6 +219,9 @@ def run_histories(T, naming, parser, r, res, n_loop, n_edit):
         okc, koc, elem = cfg
         # ---- (A) parse / mark / drop loop on one marker
         marker = naming.HTMLMarker(okc, koc, elem)
+        if r.random() < 0.2:
+            # a call that cannot complete (a tree deeper than the recursion limit) before the instance is reused
+            gentree.aborted_call(lambda t_: marker(t_, {()}, set()), T)
         history, reported, keys = [], 0, set()
         for i in range(n_loop):
             kind, what, nw, pool = H_SHAPES[i % len(H_SHAPES)] if i % 3 else r.choice(H_SHAPES)
